@@ -145,6 +145,39 @@ func init() {
 			return nil
 		},
 		// vLemma: engine-only obligation (stage lemma at a cut point)
+		// vCRTLift(e, moduli, id): the Chinese remainder theorem as the one arithmetic axiom of the RNS harnesses.
+		// Obligations: e ≡ 0 modulo every (pairwise distinct prime) modulus.  Conclusion added to the path: e = V·∏moduli
+		// for a fresh integer V, which is returned.
+		"vCRTLift": func(x *Exec, fn *ssa.Function, a []Value) Value {
+			_, e := x.bigCell(a[0])
+			ms := a[1].(Slice)
+			prod := big.NewInt(1)
+			seen := map[uint64]bool{}
+			for i := 0; i < ms.Len; i++ {
+				m := x.term(ms.Obj.Cells[ms.Off+i])
+				if !m.IsConst() || seen[m.C] || !new(big.Int).SetUint64(m.C).ProbablyPrime(20) {
+					panic(x.errf("vCRTLift: moduli must be concrete distinct primes"))
+				}
+				seen[m.C] = true
+				bm := new(big.Int).SetUint64(m.C)
+				prod.Mul(prod, bm)
+				x.addObligation(&Obligation{ID: a[3].(string), Kind: "lemma", Cond: x.ts.Cmp(OEq, x.ts.IBin(OIMod, e, x.ts.Int(bm)), x.ts.IntI(0))})
+			}
+			x.crtN++
+			v := x.ts.Var(fmt.Sprintf("crt%d", x.crtN), SInt, 0)
+			eq := x.ts.IBin(OISub, e, x.ts.IBin(OIMul, v, x.ts.Int(prod)))
+			x.path = append(x.path, x.ts.Cmp(OEq, eq, x.ts.IntI(0)))
+			// consequences of the equality modulo the target moduli, stated explicitly (reduced coefficients)
+			tg := a[2].(Slice)
+			for i := 0; i < tg.Len; i++ {
+				m := x.term(tg.Obj.Cells[tg.Off+i])
+				if !m.IsConst() || m.C == 0 {
+					panic(x.errf("vCRTLift: target moduli must be concrete"))
+				}
+				x.path = append(x.path, x.ts.Cmp(OEq, x.ts.IBin(OIMod, eq, x.ts.Int(new(big.Int).SetUint64(m.C))), x.ts.IntI(0)))
+			}
+			return x.newBig(v, nil)
+		},
 		"vLemma": func(x *Exec, fn *ssa.Function, a []Value) Value {
 			x.addObligation(&Obligation{ID: a[1].(string), Kind: "lemma", Cond: x.term(a[0])})
 			return nil
@@ -341,6 +374,26 @@ func init() {
 	// MRedLazy(x, y, q, qinv) with concrete y < q and odd q:  r ≡ x·(y·2^-64) (mod q),  0 < r < 2q.
 	// Discharged for every 64-bit x by the C01 kernel harness (2^64·r ≡ x·y and the range); cancelling the radix
 	// 2^64 (q odd) is the one arithmetic lemma used.
+	// MRed(x, y, q, qinv) with concrete y < q and odd q:  r = x·(y·2^-64) mod q exactly (r < q and 2^64·r ≡ x·y
+	// determine r uniquely).  Discharged for every 64-bit x by the kernel-contract harness of the property that uses it.
+	contractStubs["contract:mred"] = func(x *Exec, fn *ssa.Function, a []Value) Value {
+		v, y, q := x.term(a[0]), x.term(a[1]), x.term(a[2])
+		if !y.IsConst() || !q.IsConst() {
+			panic(x.errf("contract:mred needs concrete multiplier and modulus"))
+		}
+		if y.C >= q.C || q.C&1 == 0 {
+			panic(&GoPanic{Msg: "VERIF-CONTRACT: MRed called with multiplier >= q or even q", Stack: x.stackTrace()})
+		}
+		if v.IsConst() {
+			return nil2term(x, fn, a)
+		}
+		bq := new(big.Int).SetUint64(q.C)
+		rinv := new(big.Int).ModInverse(pow2(64), bq)
+		c := new(big.Int).Mul(new(big.Int).SetUint64(y.C), rinv)
+		c.Mod(c, bq)
+		ts := x.ts
+		return ts.Int2BV(ts.IBin(OIMod, ts.IBin(OIMul, ts.BV2Int(v, false), ts.Int(c)), ts.Int(bq)), 64)
+	}
 	contractStubs["contract:mredlazy"] = func(x *Exec, fn *ssa.Function, a []Value) Value {
 		v, y, q := x.term(a[0]), x.term(a[1]), x.term(a[2])
 		if !y.IsConst() || !q.IsConst() {
